@@ -168,6 +168,7 @@ class PanelCtx:
         if hasattr(out, 'ABD'):
             out.A, out.B, out.D = out.ABD[0:3, 0:3], out.ABD[0:3, 3:6], out.ABD[3:6, 3:6]
         out.offset_passed = offset
+        out.offset = offset            # like the real Laminate, which keeps the offset it was built with
         lam.offset_passed = offset
         return out
 
